@@ -503,8 +503,10 @@ WrapperErr(e, meta) ==
       [] OTHER -> ""
 (* the wrapper does not make the documented call: reference (flat) drops --diploid-parx-genome      *)
 WiringDiffers(e) == e.cmd = "reference" /\ e.mode = "flat" /\ Has(e, "diploid_parx_genome") /\ Has(e, "male_reference")
-(* pyfaidx writes <fasta>.fai next to the genome on first use (get_fasta_stats) *)
+(* pyfaidx writes <fasta>.fai next to the genome on first use (get_fasta_stats): flat `if fa_fname`,         *)
+(* pooled `if fa_fname and (fix_rmask or fix_gc)`                                                         *)
 SideFiles(e, fs) == IF e.cmd = "reference" /\ e.mode \in {"flat", "pooled"} /\ Len(In3(e)) > 0 /\ ~Exists(fs, In3(e)[1] \o ".fai")
+                       /\ (e.mode = "flat" \/ ~(Has(e, "no_gc") /\ Has(e, "no_rmask")))
                     THEN {In3(e)[1] \o ".fai"} ELSE {}
 AnyId == -1        \* "content not predicted" in an expected file system
 (* Effect: [err, fs, meta, w (names written), so (library result id expected on stdout, 0 = none)]   *)
